@@ -1430,6 +1430,11 @@ class Exec:
                     use = h
                     break
         if use is not None:
+            if type(use).__name__ != 'Use' and not any(b_.__name__ == 'Use' for b_ in type(use).__mro__):
+                # a binding that does not execute a callee contract (no-op, opaque text, event of a control skeleton) need not evaluate
+                # its arguments: whatever integer division they contain still has to be defined
+                for a_ in argn:
+                    self.scan_divisions(a_, st)
             r = use(self, n, st, objn, argn)
             return self.as_lv(r) if want_lv else self.as_rv(r, st)
         # 2. library / container model
